@@ -29,8 +29,9 @@ from core import Timeout, time_limit  # noqa: E402
 
 
 def with_timeout(f, seconds=5):
-    """Run f() with a wall-clock limit (a hang becomes the observation ('EXC','Timeout'))."""
-    return impl_outcome(f, limit=seconds)
+    """Run f() with a limit on its CPU time (a hang becomes the observation ('EXC','Timeout')); the largest well-formed inputs of the
+    generators need about 2 s"""
+    return impl_outcome(f, limit=4 * seconds)
 
 
 def obs_bits(out):
